@@ -34,7 +34,7 @@ func init() {
 			if tier == "thorough" {
 				return 14 * time.Minute
 			}
-			return 110 * time.Second
+			return 115 * time.Second
 		},
 		Rule: "exhaustive enumeration, no sampling: (a) all message sequences up to the stated length over the stated boundary alphabet x {before, after handshake} x {600-momentum chain, 5-momentum chain}, each executed on the real protocol.ProtocolManager over p2p.MsgPipe with a sentinel request from the same peer and from a second peer after every message; all scripted synchronisation dialogues of the stated reply grid; (b) all single-byte corruptions (x2 or x255 values), truncations, permutations and duplications of 3 real RLPx frames; (c) all single-byte corruptions and truncations of 4 real discovery packets, raw and with recomputed hash, plus the stated semantic variants",
 		Assumptions: []string{
